@@ -201,7 +201,7 @@ PROPS = {
     ),
     "C14": P(
         title="out-of-memory at any point leaves state unchanged and leaks nothing",
-        level="exploration",
+        level="fault_enumeration",
         technique="fault-injection enumeration inside libFuzzer-generated cases: for every generated (prior history, request) or (object, operation) the k-th allocation is made to fail for every k until the countdown no longer fires (libdbus' built-in failing allocator; hook H3 adds a second failure after a generated gap), and after each injected run the observable state is compared with a reference model or with the pre-operation snapshot, plus a block-count/descriptor leak check and a retry",
         level_text=("Exploration. Bus part (c14_busoom): prior histories of 0-6 operations over three registered clients, an unregistered one and an observer (RequestName with all 8 flag combinations on two contended names, ReleaseName, AddMatch/RemoveMatch from a pool of 6 rules, "
                     "method calls that leave reply slots, replies, broadcast and unicast signals, Hello); then one request of the same kinds handled while allocation k fails, for k = 0,1,2,... until the request completes without the failure firing (typically 40-120 runs per case). "
